@@ -243,3 +243,115 @@ PROPS["C17"] = dict(
                                  "free-list ORDER is not part of the contract (bag semantics)"],
     outside=["memories with more than 3 slots", "Vec::with_capacity returning more than the requested capacity (it returns exactly S+2 in Kani's model and in practice for this element size)"],
 )
+
+RX_BOUNDS = ("every byte string of <= 16 bytes (thorough 24) whose prefix parses to a well-formed packet of the kind, followed by an arbitrary tail; "
+             "receiver = RefMem with storage 6 bytes in the named heap shape, every context field / storage byte / remembered label symbolic; "
+             "RecCrc returns a symbolic value and records its arguments")
+RX_END = ["end_match", "end_match_full", "end_match_ext", "end_mismatch", "end_none", "end_s2_match", "end_s2_mismatch", "end_s2_none"]
+RX_INTER = ["inter_match", "inter_match_full", "inter_match_ext", "inter_mismatch", "inter_none", "inter_s2_match", "inter_s2_mismatch", "inter_s2_none"]
+
+
+RX_COMPLETE = ["complete_free", "complete_nofree", "complete_occ_full", "complete_s2"]
+RX_FIRST = ["first_empty", "first_empty_nobuf", "first_occ", "first_occ_ext", "first_s2_occ_slot", "first_s2_empty_slot"]
+
+
+def rx_members(names, cost=20, **kw):
+    return [H(f"rx::{n}", bounds=RX_BOUNDS + ("; type field >= 0x600 (extension walker replaced by an assert-unreachable stub)" if n.startswith(("complete", "first")) else ""),
+              unwind=8, stubs=STUB_HDR + ([STUB_WALKER] if n.startswith(("complete", "first")) else []), cost=cost, mem_gb=4, timeout=600,
+              covers="any", family=n.split("_")[0], **kw) for n in names]
+
+
+PROPS["C03"] = dict(
+    claim="Bounded model checking of the receiver's reassembly step on the compiled decap, from an ARBITRARY open context and storage: "
+          "an end fragment yields a completed PDU only if the bytes received since the first fragment have exactly the announced total "
+          "length and the calculator's value over (those bytes, the first fragment's protocol type, total length, label bytes or none "
+          "after re-use) equals the trailer; what is delivered is the stored prefix followed by this packet's payload with the first "
+          "fragment's metadata; an intermediate fragment appends exactly its payload at the current offset or drops the train; packets "
+          "of other ids change nothing. By induction over the packet sequence the delivered bytes are the arrival-order concatenation "
+          "since the most recent first fragment, so loss, duplication, truncation or splicing is caught by the length / CRC tests.",
+    note="Trusted: Kani/CBMC/CaDiCaL; header stub (C14 lemma); RefMem in place of the bundled memory (C17 lemmas, run as prerequisites). Burst detection is a property of CRC-32 itself: checked for DefaultCrc on 15-byte messages in the thorough tier; the extension to all lengths is the generator-polynomial argument, not a solver result.",
+    harnesses=rx_members(RX_END) + rx_members(RX_INTER) + rx_members(RX_FIRST) + [T("rx::twin_end_match", cost=5, stubs=STUB_HDR),
+              H("c14::read_all_words", bounds="prerequisite lemma: header reader == spec on all 65536 words", cost=1)] + c17_simple(False),
+    functions=DECAP_FNS,
+    assumptions=COMMON_ASSUME + ["receiver pre-state: concrete heap shape, contexts with bytes-received <= storage length; remembered label None / 3-byte / non-zero 6-byte",
+                                 "case split on 'context is for this id / for an aliasing id / absent' by one harness each (literal assume(false) on the excluded case)"],
+    prereq_note=["C14 read_all_words", "C17 contract lemmas for SimpleGseMemory"],
+    outside=["storage buffers larger than 65535 bytes (16-bit counters in the context)", "byte strings longer than 16 (24) bytes", "storage larger than 6 bytes"],
+)
+
+
+RX_TWIN = [T("rx::twin_end_match", cost=5, stubs=STUB_HDR)]
+PREREQ_HDR = [H("c14::read_all_words", bounds="prerequisite lemma: header reader == spec on all 65536 words", cost=1)]
+RX_ASSUME = COMMON_ASSUME + [
+    "receiver pre-state: RefMem in a concrete heap shape (1 or 2 slots; slots empty/occupied; 0..3 free buffers of 6 bytes), contexts with bytes-received <= storage length; remembered label None / 3-byte / non-zero 6-byte",
+    "case splits by harness instance with a literal assume(false) on the excluded case: context for this id / aliasing id / absent; slot index of the packet's id",
+    "RefMem stands for the bundled SimpleGseMemory: both satisfy the same contract lemmas (C17), run as prerequisites; decap is generic in the memory, so the substitution is by parametricity (an argument, not a solver result)",
+]
+RX_OUTSIDE = ["byte strings longer than 16 (24) bytes", "storage other than 6 bytes; more than 2 slots", "packets with extension headers are covered by the C13 members only"]
+
+PROPS["C01"] = dict(
+    claim="Bounded model checking of both halves of the unfragmented round trip on the compiled code. Sender: for ALL lengths 0..=70000 x 0..=70000 "
+          "encap reports CompletedPkt if and only if type + written label + PDU fit 4095 bytes and the buffer holds the packet, with n = 4 + label + PDU "
+          "(lattice), and the bytes are the standard's complete-packet layout of exactly (protocol type, written label, PDU) (byte tier). Receiver: for "
+          "EVERY byte string that is such a layout and every receiver state, decap delivers the same bytes, length, protocol type and label (re-use "
+          "resolved through the remembered label) and consumes exactly n, whenever a storage buffer of at least the PDU length is free. A one-formula "
+          "member feeds the real sender's output to the real receiver with the bundled memory.",
+    note="Trusted: Kani/CBMC/CaDiCaL; spec.rs::layout as the meeting point of the two halves (cross-checked by the one-formula member); header stub (C14). Byte equality is bounded by PDU <= 8..16 (sender) / 12..20 (receiver) bytes; lengths are unbounded up to 70000.",
+    harnesses=[H("c01::complete_iff_fits_lattice", bounds=LATTICE + "; protocol type >= 0x600, non-zero label", unwind=8, cost=15),
+               H("c06::encap_bytes", bounds=BYTE_TIER, unwind=8, cost=30, timeout=600),
+               H("c01::joint_complete_roundtrip", bounds="one formula: real encap (PDU <= 6, buffer <= 20, any label, any sender state) -> real decap over SimpleGseMemory(1 slot, storage 6)", unwind=8,
+                 stubs=STUBS_DECAP + [STUB_WALKER], cost=30, mem_gb=6),
+               T("c01::twin_complete_lattice", cost=5)] + rx_members(RX_COMPLETE) + RX_TWIN + PREREQ_HDR,
+    functions=ENCAP_FNS + DECAP_FNS,
+    assumptions=RX_ASSUME + [ENC_STATE_INV],
+    prereq_note=["C14 header codec", "C17 memory contract"],
+    outside=RX_OUTSIDE + ["PDU byte equality beyond the byte tier (length arithmetic is covered up to 70000)"],
+)
+
+PROPS["C07"] = dict(
+    claim="Bounded model checking of a non-interference step on the compiled decap: from EVERY state in which a slot holds an arbitrary reassembly "
+          "(context + storage, identified by pointer), one packet of each kind carrying another fragment id — accepted or rejected, mapping to another slot "
+          "or aliasing to the same slot — leaves that context, that buffer and its contents exactly as they were; only a first fragment claiming the slot "
+          "replaces it; a PDU is delivered exactly at its own end fragment, which removes its context (a second end fragment finds no context). By induction "
+          "over the packet sequence this covers every order-preserving interleaving; none is enumerated.",
+    note="Trusted: Kani/CBMC/CaDiCaL; header stub (C14); RefMem for the bundled memory, tied by the C17 lemmas (which include: take_frag with an aliasing id leaves the memory unchanged).",
+    harnesses=rx_members(RX_END) + rx_members(RX_INTER) + rx_members(RX_FIRST) + rx_members(RX_COMPLETE) + RX_TWIN + PREREQ_HDR + c17_simple(False)
+              + [H("c10::padding_consumes_rest", bounds="zero nibble + arbitrary bytes, length 2..=64; occupied slot", unwind=8, stubs=STUB_HDR, cost=5)],
+    functions=DECAP_FNS,
+    assumptions=RX_ASSUME,
+    prereq_note=["C14 read_all_words", "C17 contract lemmas for SimpleGseMemory"],
+    outside=RX_OUTSIDE,
+)
+
+PROPS["C08"] = dict(
+    claim="Bounded model checking of a conservation step on the compiled decap: every storage buffer is identified by its heap address; from EVERY state of "
+          "each heap shape (free list empty / partly filled / full), after one decap of ANY packet of each kind — delivered, or rejected for unknown or aliasing id, "
+          "unresolvable re-use label, CRC or length mismatch, oversize fragment, zero label, no storage — the number of buffers held by the memory plus the one "
+          "handed to the caller (in CompletedPkt, or inside ErrorMemory(StorageOverflow|BufferTooSmall)) equals the number before, and the buffer the call "
+          "worked on is in exactly one place. Memory operations themselves conserve buffers by the C17 lemmas. One step covers histories of any length.",
+    note="Trusted: Kani/CBMC/CaDiCaL; header stub (C14); RefMem for the bundled memory (C17 lemmas run as prerequisites). Extension-carrying packets: see C13.",
+    harnesses=rx_members(RX_END) + rx_members(RX_INTER) + rx_members(RX_FIRST) + rx_members(RX_COMPLETE) + RX_TWIN + PREREQ_HDR + c17_simple(False),
+    functions=DECAP_FNS,
+    assumptions=RX_ASSUME,
+    prereq_note=["C14 read_all_words", "C17 contract lemmas for SimpleGseMemory"],
+    outside=RX_OUTSIDE + ["memories that violate the trait documentation"],
+)
+
+PROPS["C10"] = dict(
+    claim="Bounded model checking of the frame-walk step on the compiled decap: in every receiver lemma the packet is followed by an ARBITRARY tail and the "
+          "asserted outcome (status, metadata, payload, error class) is a function of the packet and the receiver state only, and the consumed length is the "
+          "packet's own length for delivered packets and for bad CRC / unknown id / no storage / unresolvable re-use / oversize; k >= 2 bytes starting with a zero "
+          "nibble are padding consuming the rest; the sender never emits a zero first nibble (C06 members). Induction on the walk gives the statement for any number of packets.",
+    note="Trusted: Kani/CBMC/CaDiCaL; header stub (C14); RefMem (C17). Where two rejection causes coincide only Err + own length is asserted (the property fixes no priority). Packets with extension headers: C13 members.",
+    harnesses=[H("c10::padding_consumes_rest", bounds="zero nibble + arbitrary bytes, length 2..=64; arbitrary receiver state", unwind=8, stubs=STUB_HDR, cost=5),
+               H("c10::frame_walk_packet_then_padding", bounds="one formula: real encap (3-byte PDU, broadcast) + zero padding in a 16-byte frame, walked by two real decap calls", unwind=8,
+                 stubs=["read_gse_header -> complete-or-padding spec stub", STUB_WALKER], cost=15, required=False),
+               T("c10::twin_padding", cost=3, stubs=STUB_HDR),
+               H("c06::encap_bytes", bounds=BYTE_TIER + " (first nibble of every emitted start packet != 0)", unwind=8, cost=30, timeout=600),
+               H("c06::encap_frag_bytes", bounds=BYTE_TIER + " (first nibble of every emitted continuation packet != 0)", cost=10, timeout=600)]
+              + rx_members(RX_END) + rx_members(RX_INTER) + rx_members(RX_FIRST) + rx_members(RX_COMPLETE) + PREREQ_HDR,
+    functions=DECAP_FNS + ENCAP_FNS,
+    assumptions=RX_ASSUME,
+    prereq_note=["C14 read_all_words", "C06 sender layout lemmas"],
+    outside=RX_OUTSIDE + ["tails longer than the byte-string bound minus the packet"],
+)
